@@ -1,4 +1,9 @@
-STREAMS = ["c04"]
+import os
+import core
+
+STREAMS = ["c04", "c04gw", "c12"]
+NEEDS_BINARY = True
+HARNESS_ARGS = ("-rdpgw", os.path.join(core.BUILD, "rdpgw"))
 RULE = ("(a) client address through the real web.EnrichContext: 12 textual address forms (IPv4, IPv6, upper/lower case, "
         "::ffff: form, leading zeros, padded, empty) x X-Forwarded-For chains of length 1-5 with spaces, and the TCP peer when the "
         "header is absent; (b) every (issuing, presenting) pair of the resulting client strings x verification on/off through the "
@@ -13,6 +18,10 @@ ASSUMPTIONS = ["header values are ASCII (strings.TrimSpace also trims non-ASCII 
 def nontrivial(c):
     if c.kind == "clientip":
         return c.fields[0] == "-" or "2c" in c.fields[0]
+    if c.kind == "download":
+        return True
+    if c.kind == "addrbind":
+        return c.fields[2] != c.fields[3]
     return c.fields[5] != c.fields[7]
 
 
